@@ -169,13 +169,13 @@ Proof.
     + left. change (slot_at (with_head_ev G (head G + 1) (EEnq t v)) i) with (slot_at G i).
       split; auto. split; auto.
       destruct (Nat.eq_dec (fst (slot_at G i) + cap G) (head G)) as [Eq|Ne]; [|lia].
-      exfalso. assert (head G mod cap G = i) by (rewrite <- Eq, mod_add_cap; auto; lia).
-      unfold seq_at in Hs. rewrite H in Hs. lia.
+      exfalso. assert (Hm : head G mod cap G = i) by (rewrite <- Eq, mod_add_cap; auto; lia).
+      unfold seq_at in Hs. rewrite Hm in Hs. lia.
     + right. exists c. change (slot_at (with_head_ev G (head G + 1) (EEnq t v)) i) with (slot_at G i).
       repeat split; auto; try lia.
       * destruct (Nat.eq_dec (c + cap G) (head G)) as [Eq|Ne]; [|lia].
-        exfalso. assert (head G mod cap G = i) by (rewrite <- Eq, mod_add_cap; auto; lia).
-        unfold seq_at in Hs. rewrite H in Hs. lia.
+        exfalso. assert (Hm : head G mod cap G = i) by (rewrite <- Eq, mod_add_cap; auto; lia).
+        unfold seq_at in Hs. rewrite Hm in Hs. lia.
       * intro L. rewrite enqs_app. apply nth_error_app_l. auto.
   - rewrite enqs_app, app_length. simpl. rewrite (gi_nenq _ Hg). lia.
   - rewrite run_spec_app, (gi_spec _ Hg). simpl. rewrite Hd. simpl. f_equal. f_equal.
